@@ -812,6 +812,12 @@ func (c *checker) byzMessages(g *gstate) []*vmsg {
 							// includes proposals that ignore the highest prepared value: they must be rejected
 							add(c.tbl.mk(MsgPrePrepare, b, r, v, 0, 0, just))
 						}
+						if !sc.noForge {
+							// the empty value proposed in a later round on a genuine justification, with the coalition's votes for it
+							add(c.tbl.mk(MsgPrePrepare, b, r, 0, 0, 0, just))
+							add(c.tbl.mk(MsgPrepare, b, r, 0, 0, 0, nil))
+							add(c.tbl.mk(MsgCommit, b, r, 0, 0, 0, nil))
+						}
 						if !sc.noForge && hp != nil {
 							// stale prepared claim: the certificate of a ROUND-CHANGE that is NOT the highest prepared one of the
 							// set, with that ROUND-CHANGE placed first and last (the sender chooses the order of a justification)
